@@ -294,19 +294,21 @@ func (x *Exec) wfLoaded(st *State, v *Val) {
 			v.E[i] = scalar(v.E[i].T, x.sc.define("ld", v.E[i].Srt, v.E[i].S), v.E[i].Srt)
 		}
 		z := x.sc.iConst(0)
-		x.sc.assume(and(x.sc.iLe(z, v.E[1].S), x.sc.iLe(z, v.E[2].S), x.sc.iLe(v.E[2].S, v.E[3].S), "(>= "+v.E[0].S+" 0)",
-			x.sc.iLe(v.E[1].S, x.sc.iConst(1<<40)), x.sc.iLe(v.E[3].S, x.sc.iConst(1<<40))))
+		// guarded by the path condition: on other paths the loaded term may denote a value that was
+		// never stored (e.g. a reslice that only happens when the slice is non-empty)
+		x.sc.assume(implies(x.guard(st), and(x.sc.iLe(z, v.E[1].S), x.sc.iLe(z, v.E[2].S), x.sc.iLe(v.E[2].S, v.E[3].S), "(>= "+v.E[0].S+" 0)",
+			x.sc.iLe(v.E[1].S, x.sc.iConst(1<<40)), x.sc.iLe(v.E[3].S, x.sc.iConst(1<<40)))))
 	case KIface:
-		x.sc.assume(and("(>= "+v.E[0].S+" 0)", "(>= "+v.E[1].S+" 0)"))
+		x.sc.assume(implies(x.guard(st), and("(>= "+v.E[0].S+" 0)", "(>= "+v.E[1].S+" 0)")))
 	case KPtr:
 		if v.P.Kind == PHeap {
-			x.sc.assume("(>= " + v.P.Ref + " 0)")
+			x.sc.assume(implies(x.guard(st), "(>= "+v.P.Ref+" 0)"))
 		}
 	case KScalar:
 		if v.T != nil {
 			switch v.T.Underlying().(type) {
 			case *types.Map, *types.Chan:
-				x.sc.assume("(>= " + v.S + " 0)")
+				x.sc.assume(implies(x.guard(st), "(>= "+v.S+" 0)"))
 			}
 		}
 	}
@@ -583,4 +585,13 @@ func (x *Exec) mergeDefers(conds []string, states []*State) []deferred {
 		}
 	}
 	return out
+}
+
+// guard is the condition under which the current evaluation point is reached: the path condition
+// of the state, and the path conditions of the enclosing evaluations (clause functions are
+// evaluated with a local path condition of true).
+func (x *Exec) guard(st *State) string {
+	parts := append([]string{}, x.guards...)
+	parts = append(parts, st.pc)
+	return and(parts...)
 }
